@@ -19,7 +19,7 @@
   bern k sz_2 sz_4 … sz_2k  n prec rnd fault …   rnd ∈ n f c u d -, fault = -1 | j
                                     item = path,mpf|H|Q|-,m,bin,bin1   (entry of wp after the step, N,N,N if none)
   quad p0  a b deg prec fault …     item = served,deg.prec.a.b.wp,ctxprec,inStd,inTr,inCount
-  lu p0  D uc f | S d | R d | P p … item = served,ver.prec|-,lu=ver.prec|N
+  lu p0  D uc f | S d | L d | R d | P p … item = served,ver.prec|-,lu=ver.prec|N
   memoize  key prec fault …         item = served,key.cprec.posprec|-,cprec|N
   exact  key fault …                item = served
 -/
@@ -207,7 +207,7 @@ def luItems : LUState Nat (Nat × Nat) → List String → Option (List String)
   | s, op :: d :: r => do
     let d ← d.toNat?
     let o : LUOp Nat ← (match op with
-      | "S" => some (.setItem d) | "R" => some (.resize d) | "P" => some (.setPrec d) | _ => none)
+      | "S" => some (.setItem d) | "L" => some (.setSlice d) | "R" => some (.resize d) | "P" => some (.setPrec d) | _ => none)
     let (s', _) := luStep (fun d p => if d ≥ 1000 then none else some (d, p)) s o
     let st := match s'.lu with | some (d, p) => s!"{d}.{p}" | none => "N"
     let t ← luItems s' r
